@@ -412,6 +412,26 @@ theorem getTxPool_shrink {p : Pool} {ord byCount height maxTx v old p'}
 theorem removeBelow_shrink {p : Pool} {g p'} (h : removeBelow p g = some p') : Shrink p' p :=
   removeOld_shrink _ _ _ h
 
+theorem staleOne_shrink (p : Pool) (h : Nat) (u : Nat × UserInfo) : Shrink (staleOne p h u) p := by
+  unfold staleOne
+  split
+  · simp only
+    split
+    · exact ⟨eraseAll_sublist _ _, eipTxs_aerase_sub⟩
+    · exact ⟨List.Sublist.refl _, fun _ h => h⟩
+  · exact Shrink.refl p
+
+theorem staleLoop_shrink (p : Pool) (h : Nat) (us : List (Nat × UserInfo)) : Shrink (staleLoop p h us) p := by
+  induction us generalizing p with
+  | nil => exact Shrink.refl p
+  | cons u r ih => exact (ih _).trans (staleOne_shrink p h u)
+
+theorem cleanStaled_shrink (p : Pool) (h : Nat) : Shrink (cleanStaled p h) p := by
+  unfold cleanStaled
+  split
+  · exact staleLoop_shrink p h p.user
+  · exact Shrink.refl p
+
 theorem remain_shrink (p : Pool) : Shrink (remain p).2 p :=
   ⟨by simp [remain], by intro t ht; simp [remain, eipTxs] at ht⟩
 
@@ -928,6 +948,7 @@ theorem SInv.step {U s} (op : Op) (h : SInv U s) (hu : ∀ t ∈ op.txs, t ∈ U
     split
     · rename_i p hr; exact ⟨h.chain, h.pool.shrink (removeBelow_shrink hr), h.win⟩
     · exact h
+  | cleanStaled hh => exact ⟨h.chain, h.pool.shrink (cleanStaled_shrink _ _), h.win⟩
   | valClean => exact ⟨h.chain, h.pool, h.win.clean⟩
 
 theorem SInv.run {U s} (ops : List Op) (h : SInv U s) (hu : ∀ op ∈ ops, ∀ t ∈ op.txs, t ∈ U) : SInv U (s.run ops) := by
